@@ -519,6 +519,19 @@ def rule_c13_expected_greedy(prog: Program, col: Collector) -> None:
         col.check(src_ok, ref.where(rebuild[-1].node), ref.short, "candidates = [sequence + [c] for c in <remaining candidates>]", construct="greedy-rebuild-src",
                   necessity="every remaining coalition must be considered, and only those")
     loop_frames = [f for f in a.ctx if f[0] in ("while", "for")]
+    if loop_frames and loop_frames[0][0] == "while" and rem:
+        # the loop adds one coalition per iteration and shrinks the candidate set by one: it must stop when that set is exhausted
+        test = loop_frames[0][2]
+        cand_set = rem[0].recv
+        conj = list(test[2]) if test[0] == "bool" and test[1] == "and" else [test]
+        has_nonempty = any(c == cand_set or (c[0] == "cmp" and any(is_call_to(x, "len") and x[2] and x[2][0] == cand_set for x in subterms(c))) or
+                           (cands_name is not None and any(isinstance(x, tuple) and x[0] in ("loopmod",) and x[1] == cands_name for x in subterms(c))) for c in conj)
+        clipped = any(is_call_to(x, "min") and any(is_call_to(y, "len") for y in subterms(x)) for c in conj for x in subterms(c))
+        col.check(has_nonempty or clipped, ref.where(loop_frames[0][3]), ref.short,
+                  "the search loop ends when no candidate coalition is left (limit clipped to the number of candidates, or a non-empty test in the loop condition)",
+                  construct="greedy-limit-exceeds-candidates",
+                  necessity="with a step limit above the number of explorable coalitions - the default 2**n always is - the candidate list becomes empty and the mean over it raises "
+                            "AxisError: the greedy commands crash after the whole search and save nothing", rule="V5")
     if loop_frames:
         lu = loop_frames[0][1]
         exits = [e for e in ft.events if e.kind in ("break", "return") and any(f[0] in ("while", "for") and f[1] == lu for f in e.ctx)]
